@@ -290,6 +290,15 @@ pub fn self_visit_oracle<'a, T: Ty<'a>>(b: &'a [u8], n: usize, pol: Option<usize
 /// Over the prefixes b[..j]: MoreBytesNeeded up to some j0, then one and the same final outcome for every j >= j0
 /// (equal error, or equal object with equal consumed length); callbacks on a prefix are a prefix of the callbacks
 /// on every longer prefix; and the final outcome survives appended bytes.
+fn parse_outcome<'a, T: Ty<'a>>(b: &'a [u8], n: usize) -> Outcome {
+    let bb = B::of(b);
+    match pc(|| T::parse_(b, n)) {
+        Err(_) => Outcome::Panic,
+        Ok(Err(e)) => Outcome::Err(err_name(&e)),
+        Ok(Ok(pr)) => Outcome::Ok(T::f(&bb, pr.parsed()), pr.consumed()),
+    }
+}
+
 pub fn prefix_sweep<'a, T: Ty<'a>>(ctx: &Ctx, b: &'a [u8], n: usize) -> String {
     let len = b.len();
     let points: Vec<usize> = if len <= ctx.sweep_cap {
@@ -312,8 +321,25 @@ pub fn prefix_sweep<'a, T: Ty<'a>>(ctx: &Ctx, b: &'a [u8], n: usize) -> String {
     };
     let mut fin: Option<(Outcome, usize)> = None;
     let mut prev_evs: Vec<String> = vec![];
+    // the visitor-less `parse` entry point obeys the same laws (it is a separate function for Witnesses, and a separate
+    // trait method for every Visit type)
+    let sweep_parse = !matches!(T::NAME, "script" | "outpoint" | "txin" | "txout") && len <= 100_000;
+    let mut fin_p: Option<(Outcome, usize)> = None;
     for &j in &points {
         let view: &'a [u8] = &b[..j];
+        if sweep_parse {
+            let o = parse_outcome::<T>(view, n);
+            match (&fin_p, &o) {
+                (_, Outcome::Panic) => return format!("FAIL:parse-panic@{}", j),
+                (None, Outcome::Err(e)) if e == "MoreBytesNeeded" => {}
+                (None, _) => fin_p = Some((o, j)),
+                (Some((f, j0)), _) => {
+                    if *f != o {
+                        return format!("FAIL:parse-outcome-changes@{}(final-since-{})", j, j0);
+                    }
+                }
+            }
+        }
         let (o, evs) = outcome::<T>(view, n, None);
         if evs.len() < prev_evs.len() || evs[..prev_evs.len()] != prev_evs[..] {
             return format!("FAIL:callbacks-not-prefix@{}", j);
@@ -336,7 +362,25 @@ pub fn prefix_sweep<'a, T: Ty<'a>>(ctx: &Ctx, b: &'a [u8], n: usize) -> String {
             return format!("FAIL:ok-before-or-after-consumed(k={},first={})", k, j0);
         }
     }
+    if let Some((Outcome::Ok(_, k), j0)) = &fin_p {
+        if len <= ctx.sweep_cap && k != j0 {
+            return format!("FAIL:parse-ok-before-or-after-consumed(k={},first={})", k, j0);
+        }
+    }
     // extension with other bytes, in other memory
+    if let Some((f, _)) = &fin_p {
+        let mut ext = b.to_vec();
+        ext.extend_from_slice(&[0xff, 0x00, 0x01]);
+        let ext = leak(ext);
+        let o = {
+            let ext: &'a [u8] = unsafe { &*(ext as *const [u8]) };
+            parse_outcome::<T>(ext, n)
+        };
+        unleak(ext);
+        if o != *f {
+            return "FAIL:parse-extension-changes-outcome".into();
+        }
+    }
     if let Some((f, _)) = &fin {
         for suffix in [&[0x00u8][..], &[0xff, 0xff, 0xff][..], &[0x01, 0x00, 0xfd, 0x00, 0x00, 0x07][..]] {
             let mut ext = b.to_vec();
@@ -593,13 +637,17 @@ pub fn rb(name: &str, b: &[u8], n: usize, ours: &Result<usize, Error>, line: &st
                 let t = accept_reject!(bitcoin::OutPoint, b, ours)?;
                 if let (Ok((o, _)), Ok(_)) = (t, ours) {
                     let p = bsl::OutPoint::parse(b).unwrap().parsed_owned();
+                    let mut bad: Vec<&str> = vec![];
                     if p.txid() != &o.txid.to_byte_array()[..] || p.vout() != o.vout {
-                        return Err("FAIL:outpoint-fields".into());
+                        bad.push("outpoint-fields");
                     }
                     let conv: bitcoin::OutPoint = (&p).into();
                     let conv2: bitcoin::OutPoint = p.clone().into();
                     if conv != o || conv2 != o || serialize(&conv) != p.as_ref() {
-                        return Err("FAIL:outpoint-conversion".into());
+                        bad.push("outpoint-conversion");
+                    }
+                    if !bad.is_empty() {
+                        return Err(format!("FAIL:{}", bad.join("+")));
                     }
                 }
             }
@@ -628,16 +676,21 @@ pub fn rb(name: &str, b: &[u8], n: usize, ours: &Result<usize, Error>, line: &st
                 match (t, ours) {
                     (Ok((o, _)), Ok(_)) => {
                         let p = bsl::TxOut::parse(b).unwrap().parsed_owned();
+                        // every failing aspect is reported (fields: C03; conversions: C19)
+                        let mut bad: Vec<&str> = vec![];
                         if p.value() != o.value.to_sat() || p.script_pubkey() != o.script_pubkey.as_bytes() {
-                            return Err("FAIL:txout-fields".into());
+                            bad.push("txout-fields");
                         }
                         let conv: bitcoin::TxOut = (&p).into();
                         let conv2: bitcoin::TxOut = p.clone().into();
                         if conv != o || conv2 != o || serialize(&conv) != p.as_ref() {
-                            return Err("FAIL:txout-conversion".into());
+                            bad.push("txout-conversion");
                         }
                         if p.as_bitcoin_script() != o.script_pubkey.as_script() {
-                            return Err("FAIL:as_bitcoin_script".into());
+                            bad.push("as_bitcoin_script");
+                        }
+                        if !bad.is_empty() {
+                            return Err(format!("FAIL:{}", bad.join("+")));
                         }
                     }
                     (Err(e), Err(o)) => errclass(&e, o)?,
@@ -807,6 +860,33 @@ pub fn rb(name: &str, b: &[u8], n: usize, ours: &Result<usize, Error>, line: &st
                 }
             }
             "tx" => {
+                // both accept but consume different lengths: the derived quantities are compared all the same (the
+                // bytes are a valid transaction, so its weight and txid are defined: C16, C10)
+                if let (Ok((tx, k)), Ok(k2)) = (deserialize_partial::<bitcoin::Transaction>(b), ours) {
+                    if k != *k2 {
+                        let mut bad: Vec<String> = vec![format!("consumed-{}-vs-rust-bitcoin-{}", k2, k)];
+                        let d = pc(|| {
+                            let pr = bsl::Transaction::parse(b).ok()?;
+                            let p = pr.parsed();
+                            let id = p.txid();
+                            let id: &[u8] = id.as_ref();
+                            Some((p.weight() == tx.weight().to_wu(), id == &tx.compute_txid().to_byte_array()[..]))
+                        });
+                        match d {
+                            Ok(Some((w, i))) => {
+                                if !w {
+                                    bad.push("tx-weight".into());
+                                }
+                                if !i {
+                                    bad.push("txid".into());
+                                }
+                            }
+                            Ok(None) => {}
+                            Err(_) => bad.push("panic-in-accessor".into()),
+                        }
+                        return Err(format!("FAIL:{}", bad.join("+")));
+                    }
+                }
                 let t = accept_reject!(bitcoin::Transaction, b, ours)?;
                 match (t, ours) {
                     (Ok((tx, k)), Ok(_)) => {
@@ -1011,6 +1091,15 @@ pub fn redb_line(ctx: &Ctx, ty: &str, b: &[u8]) -> String {
                         }
                         if fw != $fw {
                             v = "FAIL:fixed_width".into();
+                        }
+                        // "the database byte representation is exactly its serialized bytes": the serialization is
+                        // what the reference decoder delimits in the input
+                        if b.len() < 4_000_000 {
+                            if let Ok((_, k)) = deserialize_partial::<$RB>(b) {
+                                if bytes != &b[..k] {
+                                    v = "FAIL:as_bytes-is-not-the-serialized-object".into();
+                                }
+                            }
                         }
                         if ctx.redb_real && v == "ok" {
                             let r = pc(|| {
